@@ -26,6 +26,7 @@ type (
 	lineReader struct {
 		r        *bufio.Reader
 		eofSleep time.Duration
+		pend     []byte // partial line (no newline yet) kept between calls
 	}
 )
 
@@ -44,25 +45,19 @@ func newLineReader(ioRdr io.Reader, bufSize int) *lineReader {
 // It follows the io.Reader.Read contract and returns io.EOF
 // only when it doesn't have data to be read.
 func (r *lineReader) readLine(ctx context.Context) ([]byte, error) {
-	var buf []byte
 	for ctx.Err() == nil {
 		line, err := r.r.ReadSlice('\n')
-		line = utils.BytesCopy(line)
-		if err == nil {
-			return concatBufs(buf, line), err
+		line = concatBufs(r.pend, utils.BytesCopy(line))
+		r.pend = nil
+		if err == nil || err == bufio.ErrBufferFull {
+			return line, nil
 		}
 
 		if err == io.EOF {
-			buf = concatBufs(buf, line)
-			if len(buf) == 0 {
-				return nil, io.EOF
-			}
-			utils.Sleep(ctx, r.eofSleep)
-			continue
-		}
-
-		if err == bufio.ErrBufferFull {
-			return concatBufs(buf, line), nil
+			// keep the partial line for the next call and report EOF: the caller polls again (a live
+			// file completes the line later) or stops (a rotated file never will)
+			r.pend = line
+			return nil, io.EOF
 		}
 		return nil, err
 	}
@@ -70,6 +65,7 @@ func (r *lineReader) readLine(ctx context.Context) ([]byte, error) {
 }
 
 func (r *lineReader) reset(ioRdr io.Reader) {
+	r.pend = nil
 	r.r.Reset(ioRdr)
 }
 
